@@ -420,7 +420,8 @@ void run_C04(void) {
   // products on worst-case operands: every kernel, ref and avx2
   static const int FAMS[] = {QF_ALLMAX, QF_ALTERNATE, QF_SINGLEMAX, QF_NONCANON, QF_NEARMULT};
   for (int k = 0; k < N_KERNELS; k++)
-    for (int avx2 = 0; avx2 <= 1; avx2++)
+    for (int avx2 = 0; avx2 <= 1; avx2++) {
+      if (!q120_kernel_has((q120_kernel_t)k, avx2)) continue;
       for (size_t e = 0; e < ARRAY_LEN(ELLS4); e++)
         for (size_t fx = 0; fx < ARRAY_LEN(FAMS); fx++)
           for (size_t fy = 0; fy < ARRAY_LEN(FAMS); fy++) {
@@ -434,10 +435,12 @@ void run_C04(void) {
             sample("%" PRIu64 " lanes congruent at ell=%" PRIu64, lanes, ell);
             case_end(ell >= 1);
           }
+    }
   for (unsigned t = 0; t < (th ? 20000u : 600u); t++) {
     uint64_t h = mix64(t * 31337 + 11);
     uint64_t ell = h % 10001;
     int k = (int)((h >> 20) % N_KERNELS), avx2 = (int)((h >> 24) & 1);
+    if (!q120_kernel_has((q120_kernel_t)k, avx2)) avx2 = !avx2;
     int fx = FAMS[(h >> 28) % ARRAY_LEN(FAMS)], fy = FAMS[(h >> 32) % ARRAY_LEN(FAMS)];
     char key[128];
     snprintf(key, sizeof key, "%s_%s|worstcase,sampled-ell", q120_kernel_name[k], avx2 ? "avx2" : "ref");
